@@ -421,6 +421,9 @@ func (e *gnode) inline(l *glayout) string {
 					if len(k.kids) > 0 {
 						return k.inline(l)
 					}
+				case "not":
+					// `not` takes one TERM: not a && b is (not a) && b
+					return k.inline(l)
 				}
 				return arg(k)
 			}
